@@ -314,7 +314,9 @@ def module_tables():
             out[name] = hashlib.sha256(repr(freeze(val)).encode()).hexdigest()[:12]
     fn = getattr(asm.assemble, '__wrapped__', asm.assemble)
     out['assemble.__defaults__'] = repr((fn.__defaults__, freeze(fn.__kwdefaults__)))
-    out['read_lines.__defaults__'] = repr((asm.read_lines.__defaults__, freeze(asm.read_lines.__kwdefaults__)))
+    rl = getattr(asm, 'read_lines', None)
+    if rl is not None:
+        out['read_lines.__defaults__'] = repr((rl.__defaults__, freeze(rl.__kwdefaults__)))
     return out
 
 
